@@ -95,8 +95,19 @@ class Domain(object):
             self.vals = int_values(self.vcode, nv)
         elif self.vcode == "F":
             self.vals = FLOAT_VALUES[:max(2, nv)]
+            if cfg.get("vx"):
+                # distinct float32 values closer together than FLT_EPSILON
+                # (0.0 is among the first two)
+                self.vals = self.vals + [2.0 ** -30, 3 * 2.0 ** -31]
+            if cfg.get("vnan"):
+                self.vals = self.vals + [float("nan")]
         elif self.vcode == "s":
             self.vals = [bytes([65 + j]) * 6 for j in range(max(2, nv))]
+            if cfg.get("vx"):
+                # binary values: NUL bytes, equal up to the first NUL
+                self.vals = self.vals + [b"\x00\x00\x00\x00\x00\x01",
+                                         b"\x00\x00\x00\x00\x00\x02",
+                                         b"AB\x00CDE", b"AB\x00CDF"]
         else:
             if vfl == "int":
                 vs = [100 + j for j in range(nv)]
@@ -247,6 +258,8 @@ def draw_domain_cfg(rng, fam=None, hk=False, small=True):
     if fam[1] == "O":
         cfg["vflavor"] = rng.choice(["int", "str", "fset"])
         cfg["vnone"] = rng.random() < 0.3
+    if fam[1] in "Fs":
+        cfg["vx"] = rng.random() < 0.4
     return cfg
 
 
